@@ -60,6 +60,11 @@ fn conv<E: Clone + std::fmt::Debug + Into<err::FromSliceError> + Into<err::ReadE
     let r: err::ReadError = e.clone().into();
     let of = obs_from_slice_error(&f);
     let or = obs_read_error(&r);
+    {
+        // rendering of the unifying types (a panic here is reported by the caller's catch())
+        use std::error::Error;
+        let _ = (format!("{f} {f:?}").len(), format!("{r} {r:?}").len(), f.source().map(|x| x.to_string().len()), r.source().map(|x| x.to_string().len()));
+    }
     // accessor helpers of the unifying types must agree with the variant
     let acc_ok = match &f {
         err::FromSliceError::Len(l) => f.len() == Some(l) && r.len() == Some(l),
@@ -81,6 +86,38 @@ fn conv<E: Clone + std::fmt::Debug + Into<err::FromSliceError> + Into<err::ReadE
         });
     }
     o
+}
+
+/// `add_slice_offset` / `LenError::add_offset` are the public helpers callers use to re-base an error
+/// of an inner decoder onto their own buffer: they must move `layer_start_offset` by exactly `k` and
+/// change nothing else (content errors untouched).
+fn offset_helpers(b: &[u8], k: usize) {
+    macro_rules! shift {
+        ($name:expr, $res:expr, $ty:path) => {
+            if let Err(e) = $res {
+                use $ty as T;
+                CONV_COUNT.with(|c| c.set(c.get() + 1));
+                let s = e.clone().add_slice_offset(k);
+                let ok = match (&e, &s) {
+                    (T::Len(a), T::Len(x)) => *x == err::LenError { layer_start_offset: a.layer_start_offset + k, ..a.clone() } && *x == a.clone().add_offset(k),
+                    (T::Content(a), T::Content(x)) => a == x,
+                    _ => false,
+                };
+                if !ok {
+                    CONV_MISMATCH.with(|m| m.borrow_mut().push(format!("{}::add_slice_offset({}): {:?} became {:?}", $name, k, e, s)));
+                }
+            }
+        };
+    }
+    shift!("ipv4::HeaderSliceError", Ipv4HeaderSlice::from_slice(b), err::ipv4::HeaderSliceError);
+    shift!("ipv6::HeaderSliceError", Ipv6HeaderSlice::from_slice(b), err::ipv6::HeaderSliceError);
+    shift!("ip_auth::HeaderSliceError", IpAuthHeaderSlice::from_slice(b), err::ip_auth::HeaderSliceError);
+    shift!("ipv6_exts::HeaderSliceError", Ipv6ExtensionsSlice::from_slice(IpNumber(if b.is_empty() { 0 } else { [0u8, 43, 44, 51, 60][b[0] as usize % 5] }), b), err::ipv6_exts::HeaderSliceError);
+    shift!("tcp::HeaderSliceError", TcpHeaderSlice::from_slice(b), err::tcp::HeaderSliceError);
+    shift!("macsec::HeaderSliceError", MacsecHeaderSlice::from_slice(b), err::macsec::HeaderSliceError);
+    shift!("linux_sll::HeaderSliceError", LinuxSllHeaderSlice::from_slice(b), err::linux_sll::HeaderSliceError);
+    shift!("ip::HeadersSliceError", IpHeaders::from_slice(b), err::ip::HeadersSliceError);
+    shift!("ip::LaxHeaderSliceError", IpHeaders::from_slice_lax(b), err::ip::LaxHeaderSliceError);
 }
 
 /// every error (returned or stop error) produced by the whole-packet families for this start
@@ -496,11 +533,17 @@ pub fn check(start: Start, b: &[u8], ctx: &mut Ctx) -> Result<(), Failure> {
             }
         }
     }
+    if let Err(m) = catch(|| offset_helpers(b, [0usize, 14, 18, 4, 65_521][b.len() % 5])) {
+        return ctx.fail(Failure::new(format!("C07|panic|{}", panic_location(&m)), "an answer is prescribed for every input", m, input_json(start, b)));
+    }
     let conv_n = CONV_COUNT.with(|c| c.replace(0));
     ctx.eval(conv_n);
     let conv_bad: Vec<String> = CONV_MISMATCH.with(|m| std::mem::take(&mut *m.borrow_mut()));
     if let Some(first) = conv_bad.first() {
-        let ty = first.split(':').next().unwrap_or("?").to_string();
+        let ty = first.split(": ").next().unwrap_or("?").split('(').next().unwrap_or("?").to_string();
+        if ty.ends_with("add_slice_offset") {
+            return ctx.fail(Failure::new(format!("C07|{}|re-basing-changes-more-than-the-offset", ty), "add_slice_offset / add_offset move layer_start_offset by exactly the given amount and change nothing else", conv_bad.join(" ;; "), input_json(start, b)));
+        }
         return ctx.fail(Failure::new(format!("C07|From<{}>|conversion-changes-the-error", ty), "an error converted into FromSliceError / ReadError keeps its record in the matching variant", conv_bad.join(" ;; "), input_json(start, b)));
     }
     if judged > 0 {
